@@ -651,14 +651,7 @@ func c10Support(c *Ctx) {
 	}
 	// a withdraw policy with a zero interval is disabled (row: AuthorizeWithdrawal)
 	if fn := c.needFn(rule, "vault/api.(*WithdrawPolicy).IsDisabled"); fn != nil {
-		ok := false
-		for _, r := range Returns(fn) {
-			s := vstr(r.Results[0])
-			if strings.Contains(s, "*param:wp.LimitInterval == 0") && strings.Contains(s, "|true") {
-				ok = true
-			}
-		}
-		c.Check(ok, rule, fname(fn)+":LimitInterval==0 ⇒ disabled", c.P.Pos(fn.Pos()), "IsDisabled is true whenever LimitInterval is zero", "IsDisabled no longer implies a non-zero LimitInterval when false: AuthorizeWithdrawal divides by it")
+		c.ResultImpliesCond(rule, fn, 0, false, fname(fn)+":LimitInterval==0 ⇒ disabled", "LimitInterval != 0", `^\*param:[A-Za-z_0-9]+\.LimitInterval != 0$`, "IsDisabled is true whenever LimitInterval is zero", "IsDisabled no longer implies a non-zero LimitInterval when false: AuthorizeWithdrawal divides by it")
 	}
 	if fn := c.needFn(rule, "vault/api.(*AddressState).AuthorizeWithdrawal"); fn != nil {
 		var divs []ssa.Instruction
